@@ -262,6 +262,8 @@ def cases(tier):
         for mode in ("inplace", "rebind", "iadd"):
             if tier == "quick" and heavy and mode != "inplace":
                 continue
+            if mode == "iadd" and ek == ("odom", "SE3"):
+                continue  # boxplus of both endpoints inside a 3-sphere identity: neither z3 version decides it
             out.append(Case("history-%s-%s-%s" % (mode, ek[0], ek[1]), _error(ek, mode), timeout=10, old_timeout=30, validate=1, shards=3 if heavy else 1, feas_timeout_ms=1000))
         out.append(Case("edgechi2-%s-%s" % ek, _edge_chi2(ek), timeout=10, validate=v, cert_first=ek[1] in ("SE2", "SE3")))
     for n in (1, 2, 3, 6):
